@@ -494,7 +494,7 @@ static int cmd_run(int argc, char **argv) {
         f << "  \"real_components\": [\"TopologyKernel\", \"ResourceManager\", \"PropertyStorage\", \"Tet/Hex kernels\", \"iterators\", \"StatusAttrib\", \"OVMB reader/writer\", \"ASCII FileManager\", \"codecs\"],\n";
         f << "  \"stub_components\": [\"streambuf/disk image\", \"operator new\", \"WriteBuffer preallocation knob\", \"step clock\"]\n";
         f << " },\n";
-        f << " \"assumptions\": [\"sampling, not proof: a clean batch is evidence\", \"bounds: meshes <= ~40 vertices, plans <= ~120 ops, <= 3 replicas\", "
+        f << " \"assumptions\": [\"sampling, not proof: a clean batch is evidence\", \"bounds: meshes <= ~50 vertices (fans up to 40 cells around one edge; width-boundary meshes 255..257 and, thorough C06 only, 65535..65537), plans <= ~120 ops, <= 3 replicas\", "
              "\"ASan+UBSan subset with libstdc++ container annotations; library built -O1 -DNDEBUG\", \"valid-argument generators define the precondition space\"]\n";
         f << "}\n";
         f.close();
